@@ -17,6 +17,7 @@ import PgProofs.C05Sig
 import PgProofs.C05Handles
 import PgProofs.C05Dna
 import PgProofs.C05Opts
+import PgProofs.C05Auto
 namespace Pg.C05
 
 /-! ## T-SIG: value specs can be rebuilt from what `to_json` emits -/
@@ -134,6 +135,16 @@ theorem C05_opts_hide (o : JOpts) (ho : o.hideDefault = true) :
   simp [toJsonO, toJsonOA, ClassEnv.fieldsOf, ClassEnv.find, envP, hiddenAttr, findField, isMissing, ho,
     Tree.beq, atomJ]
 
+/-- `_type` RESOLUTION: loading with `auto_dict=True` gives the same result as the strict loader on
+everything `to_json` produces from conforming values (every class is known, nothing is rewritten) … -/
+theorem C05_auto_dict_roundtrip (env : ClassEnv) (hwf : env.WF = true) (ap : Bool) (t : Tree)
+    (hc : Conforms env t = true) (he : Encodable false t = true)
+    (hm : ap = true ∨ NoMissing t = true) :
+    fromJsonAuto env ap (toJson env t) = .ok t := by
+  unfold fromJsonAuto
+  rw [ad_tree env t hc he]
+  exact rt_tree env ap (fun c attrs h1 h2 h3 => construct_ok env hwf ap c attrs h1 h2 h3) t hc he hm
+
 /-- The same statement without the `Encodable` hypothesis … -/
 def C05_roundtrip_Full : Prop :=
   ∀ (env : ClassEnv) (ap : Bool) (t : Tree), env.WF = true → Conforms env t = true →
@@ -168,6 +179,20 @@ theorem C05_reserved_type_key :
     fromJson noClasses false (toJson noClasses (.dict [(.s typeKey, .leaf (.str ['x']))])) =
       .error .type := by
   simp [fromJson, toJson, toJsonKV, atomJ, resolveOk, jlookup, noClasses, ClassEnv.find]
+
+/-- … while on a `_type` that names no registered class the strict loader raises TypeError and
+`auto_dict=True` keeps the dict, `_type` renamed to `type_name` (moved to the end). -/
+theorem C05_unknown_type :
+    fromJson noClasses false (.obj [(.s typeKey, .str "nope.Nope".toList), (.s ['x'], .int 1)]) = .error .type ∧
+    fromJsonAuto noClasses false (.obj [(.s typeKey, .str "nope.Nope".toList), (.s ['x'], .int 1)]) =
+      .ok (.dict [(.s ['x'], .leaf (.int 1)), (.s typeNameKey, .leaf (.str "nope.Nope".toList))]) := by
+  constructor
+  · simp [fromJson, resolveOk, jlookup, noClasses, ClassEnv.find]
+  · have e : (['x'] : Str) ≠ typeKey := by decide
+    have e2 : (['x'] : Str) ≠ typeNameKey := by decide
+    have e3 : typeNameKey ≠ typeKey := by decide
+    simp [fromJsonAuto, autoDict, autoDictKV, jlookup, noClasses, ClassEnv.find, dsetK, fromJ, fromJKV, e, e2, e3,
+      e.symm, e2.symm, e3.symm]
 
 /-! ## Codec: string form (`n_:` int keys) over an abstract JSON text layer -/
 
